@@ -1051,3 +1051,31 @@ Section NoPanicSetOps.
     split; intros; apply scan_array_clean.
   Qed.
 End NoPanicSetOps.
+
+(* the function the correspondence check runs, on every script of number keys: the
+   stable sorted permutation *)
+Theorem run_sort_numkeys_spec (ranks : list N) :
+  exists p, run_sort (num_script ranks) = Ok p /\
+    Permutation p (seq 0 (length ranks)) /\
+    StronglySorted (fun i j => (nth i ranks 0 <= nth j ranks 0)%N) p /\
+    (forall r, filter (fun i => N.eqb r (nth i ranks 0%N)) p =
+               filter (fun i => N.eqb r (nth i ranks 0%N)) (seq 0 (length ranks))).
+Proof.
+  unfold run_sort, num_script. rewrite map_length. fold (num_script ranks).
+  destruct (std_sort_correct nat wkey werr (wkeyf (num_script ranks)) wcmp (num_kf ranks) num_c
+              num_c_total_preorder (seq 0 (length ranks))) as [p [Ep [Pp [Sp Tp]]]].
+  - apply num_keys_pure. intros i Hi. apply in_seq in Hi. exact (proj2 Hi).
+  - apply num_cmp_pure.
+  - exists p. split; [exact Ep|]. split; [exact Pp|]. split.
+    + eapply StronglySorted_impl; [|exact Sp]. intros i j H. unfold num_c, num_kf, numkey in H. cbn in H.
+      apply N.compare_le_iff. exact H.
+    + intros r. specialize (Tp (numkey r)).
+      assert (Hf : forall i, same_key num_c (numkey r) (num_kf ranks i) = N.eqb r (nth i ranks 0%N)).
+      { intros i. unfold same_key, num_c, num_kf, numkey. cbn.
+        destruct (N.compare_spec r (nth i ranks 0%N)) as [He|Hl|Hg].
+        - subst. symmetry. apply N.eqb_refl.
+        - symmetry. apply N.eqb_neq. intros ->. apply (N.lt_irrefl _ Hl).
+        - symmetry. apply N.eqb_neq. intros ->. apply (N.lt_irrefl _ Hg). }
+      rewrite (filter_ext_in' _ _ p (fun i _ => Hf i)) in Tp.
+      rewrite (filter_ext_in' _ _ (seq 0 (length ranks)) (fun i _ => Hf i)) in Tp. exact Tp.
+Qed.
